@@ -18,6 +18,7 @@ import (
 	"github.com/bitcoin-sv/block-headers-service/internal/chaincfg/chainhash"
 	"github.com/bitcoin-sv/block-headers-service/repository"
 	"github.com/bitcoin-sv/block-headers-service/service"
+	peerpkg "github.com/bitcoin-sv/block-headers-service/transports/p2p/peer"
 	"github.com/bitcoin-sv/block-headers-service/transports/http/endpoints"
 	httpserver "github.com/bitcoin-sv/block-headers-service/transports/http/server"
 	"github.com/gin-gonic/gin"
@@ -117,6 +118,8 @@ type World struct {
 	// AfterServices lets an engine add notification channels etc. after every (re)start.
 	AfterServices func(w *World)
 	Generation    int
+	// Peers is the peer map shared by service.NewServices (network service) and the P2P server, as in cmd/main.go.
+	Peers map[*peerpkg.Peer]*peerpkg.SyncState
 }
 
 // NewWorld creates the scratch database of a run from the template. It does not open it.
@@ -139,6 +142,11 @@ func NewWorldKeepIgnore(r *Run) *World {
 	w.Cfg = baseConfig(w.DBPath)
 	w.Sniffer = &panicSniffer{}
 	w.Log = zerolog.New(w.Sniffer).Level(zerolog.ErrorLevel)
+	if p := os.Getenv("VERIF_SVC_LOG"); p != "" { // debugging aid: full service log of the run into a file
+		if f, err := os.OpenFile(p, os.O_CREATE|os.O_WRONLY|os.O_APPEND, 0o644); err == nil {
+			w.Log = zerolog.New(zerolog.MultiLevelWriter(w.Sniffer, f)).Level(zerolog.DebugLevel)
+		}
+	}
 	return w
 }
 
@@ -182,7 +190,7 @@ func (w *World) OpenWith(db *sqlx.DB) {
 	}
 	w.Svc = service.NewServices(service.Dept{
 		Repositories: w.Repo,
-		Peers:        nil,
+		Peers:        w.Peers,
 		AdminToken:   w.Cfg.HTTP.AuthToken,
 		Logger:       &w.Log,
 		Config:       w.Cfg,
